@@ -549,6 +549,28 @@ unsafe fn snapshot_as(label: &str) {
             let _ = write!(w, " fd{}={}:{}:{}:{}", fd, st.st_dev, st.st_ino, fl & 3, fdfl & 1);
         }
     }
+    // which of the standard descriptors are one open file description (they share the offset), for regular files on the same
+    // inode: " shr12=1" -- `2>&1` gives that, two opens of one file do not
+    for (a, b) in [(0, 1), (1, 2), (0, 2)] {
+        let mut sa: libc::stat = std::mem::zeroed();
+        let mut sb: libc::stat = std::mem::zeroed();
+        if libc::syscall(libc::SYS_fstat, a as c_long, &mut sa as *mut libc::stat) == 0
+            && libc::syscall(libc::SYS_fstat, b as c_long, &mut sb as *mut libc::stat) == 0
+            && sa.st_mode & libc::S_IFMT == libc::S_IFREG
+            && sa.st_dev == sb.st_dev
+            && sa.st_ino == sb.st_ino
+        {
+            let oa = libc::syscall(libc::SYS_lseek, a as c_long, 0 as c_long, libc::SEEK_CUR as c_long);
+            let ob = libc::syscall(libc::SYS_lseek, b as c_long, 0 as c_long, libc::SEEK_CUR as c_long);
+            libc::syscall(libc::SYS_lseek, a as c_long, 7654321 as c_long, libc::SEEK_SET as c_long);
+            let ob2 = libc::syscall(libc::SYS_lseek, b as c_long, 0 as c_long, libc::SEEK_CUR as c_long);
+            libc::syscall(libc::SYS_lseek, a as c_long, oa as c_long, libc::SEEK_SET as c_long);
+            if ob2 != 7654321 {
+                libc::syscall(libc::SYS_lseek, b as c_long, ob as c_long, libc::SEEK_SET as c_long);
+            }
+            let _ = write!(w, " shr{}{}={}", a, b, (ob2 == 7654321) as u8);
+        }
+    }
     let real: SigmaskFn = std::mem::transmute(next_sym(b"pthread_sigmask\0"));
     let mut cur: libc::sigset_t = std::mem::zeroed();
     real(libc::SIG_SETMASK, std::ptr::null(), &mut cur);
